@@ -360,7 +360,7 @@ _VERDICTS = {}       # (expr tuple, shape, vals key, memo) -> (want, g, e)
 
 
 class Prog:
-    __slots__ = ("src", "f", "session", "g_refusal", "path", "params", "modname")
+    __slots__ = ("src", "f", "session", "g_refusal", "path", "params", "modname", "rescript")
 
 
 def source_of(expr, rank):
@@ -393,7 +393,7 @@ def build(expr, rank):
             sys.modules.pop(old.modname, None)
     pr = Prog()
     pr.src, pr.params = source_of(expr, rank)
-    pr.f = pr.session = pr.g_refusal = None
+    pr.f = pr.session = pr.g_refusal = pr.rescript = None
     pr.path = "-"
     _SEQ[0] += 1
     fname = f"<c11_{_SEQ[0]}>"
@@ -412,13 +412,25 @@ def build(expr, rank):
         linecache.cache.pop(fname, None)
         _PROGS[key] = pr
         return pr
-    linecache.cache.pop(fname, None)
     try:
         mp = pr.f.to_model_proto()
     except Exception as e:  # noqa: BLE001
+        linecache.cache.pop(fname, None)
         pr.g_refusal = ("export", type(e).__name__, str(e)[:160])
         _PROGS[key] = pr
         return pr
+    # the SAME Python function object scripted a second time must give the same graph (the translation of a subscript
+    # must not depend on an earlier translation of the same source: seeded C11f rewrote the shared AST in place)
+    try:
+        pyfn = getattr(pr.f, "function", None)
+        if pyfn is not None:
+            env = _env()
+            f2 = env["script"](default_opset=env["op"])(pyfn)
+            if f2.to_model_proto().SerializeToString(deterministic=True) != mp.SerializeToString(deterministic=True):
+                pr.rescript = "differs"
+    except Exception as e:  # noqa: BLE001
+        pr.rescript = "raises:" + type(e).__name__
+    linecache.cache.pop(fname, None)
     ops = [n.op_type for n in mp.graph.node if n.op_type != "Constant"]
     for fn in mp.functions:
         ops += ["fn:" + n.op_type for n in fn.node if n.op_type != "Constant"]
@@ -766,6 +778,16 @@ def execute(item):
         inc("path:" + pr.path)
         if pr.g_refusal is not None:
             inc(f"graph-refused-static:{pr.g_refusal[0]}:{pr.g_refusal[1]}")
+        if pr.rescript is not None:
+            key = f"C11|graph|second script() of the same function object {pr.rescript}"
+            inc("rescript:" + pr.rescript)
+            if key not in viols:
+                viols[key] = {"key": key, "detail": {"index": "X[" + ", ".join(render(c, p) for p, c in enumerate(expr)) + "]",
+                                                      "source": pr.src, "cases_in_item": 1}}
+            else:
+                viols[key]["detail"]["cases_in_item"] += 1
+        elif pr.f is not None and pr.g_refusal is None:
+            inc("rescript:identical")
         compared = False
         for shape in shapes:
             for vals in valuations(expr, shape, mode):
